@@ -34,6 +34,41 @@ type Stats struct {
 	skel map[string]bool
 }
 
+// known findings --------------------------------------------------------------
+
+type knownFile struct {
+	Findings []struct {
+		Property  string `json:"property"`
+		Signature string `json:"signature"`
+	} `json:"findings"`
+}
+
+var knownOnce sync.Once
+var knownSigs map[string]bool
+
+// IsKnown reports whether sig is listed as a recorded, not repaired defect in
+// the committed known_findings.json ($VERIF_KNOWN). The file is only read.
+func IsKnown(sig string) bool {
+	knownOnce.Do(func() {
+		knownSigs = map[string]bool{}
+		p := os.Getenv("VERIF_KNOWN")
+		if p == "" {
+			if home := os.Getenv("VERIF_HOME"); home != "" {
+				p = filepath.Join(home, "known_findings.json")
+			} else {
+				p = "/verif/known_findings.json"
+			}
+		}
+		var k knownFile
+		if err := LoadJSON(p, &k); err == nil {
+			for _, f := range k.Findings {
+				knownSigs[f.Signature] = true
+			}
+		}
+	})
+	return knownSigs[sig]
+}
+
 var stats = map[string]*Stats{}
 var statsMu sync.Mutex
 
@@ -197,6 +232,7 @@ var Owned = map[string]map[string]bool{
 	"C10": set(FErrors),
 	"C11": set(FFrom),
 	"C12": set(FMarks, FTables),
+	"C19": set(FMissing, FExtra, FName, FOrder, FFrom, FAddErr, FRmErr, FPanic, FWedge),
 	"C14": set(FCap, FMissing, FExtra, FOrder, FName, FFrom),
 }
 
@@ -218,6 +254,11 @@ func RecordCase(prop string, c *Case, w *World, nontrivial bool) {
 	}
 	for _, f := range w.Findings {
 		s.Classes[f.Class]++
+	}
+	if w.M != nil {
+		for k, v := range w.M.Known {
+			s.Known[k] += v
+		}
 	}
 	s.mu.Unlock()
 	if nontrivial {
